@@ -1046,7 +1046,7 @@ fn parse_mapping_with(mapping: &Mapping, members: bool) -> crate::Result<Express
                                         .ascii_case_insensitive(true)
                                         .kind(Some(AhoCorasickKind::DFA))
                                         .build(vec![c.clone()])
-                                        .expect("failed to build dfa"),
+                                        .map_err(crate::error::parse_invalid_ident)?,
                                 ),
                                 vec![MatchType::Contains(c)],
                                 true,
@@ -1065,7 +1065,7 @@ fn parse_mapping_with(mapping: &Mapping, members: bool) -> crate::Result<Express
                                         .ascii_case_insensitive(true)
                                         .kind(Some(AhoCorasickKind::DFA))
                                         .build(vec![c.clone()])
-                                        .expect("failed to build dfa"),
+                                        .map_err(crate::error::parse_invalid_ident)?,
                                 ),
                                 vec![MatchType::EndsWith(c)],
                                 true,
@@ -1084,7 +1084,7 @@ fn parse_mapping_with(mapping: &Mapping, members: bool) -> crate::Result<Express
                                         .ascii_case_insensitive(true)
                                         .kind(Some(AhoCorasickKind::DFA))
                                         .build(vec![c.clone()])
-                                        .expect("failed to build dfa"),
+                                        .map_err(crate::error::parse_invalid_ident)?,
                                 ),
                                 vec![MatchType::Exact(c)],
                                 true,
@@ -1103,7 +1103,7 @@ fn parse_mapping_with(mapping: &Mapping, members: bool) -> crate::Result<Express
                                         .ascii_case_insensitive(true)
                                         .kind(Some(AhoCorasickKind::DFA))
                                         .build(vec![c.clone()])
-                                        .expect("failed to build dfa"),
+                                        .map_err(crate::error::parse_invalid_ident)?,
                                 ),
                                 vec![MatchType::StartsWith(c)],
                                 true,
@@ -1503,7 +1503,7 @@ fn parse_mapping_with(mapping: &Mapping, members: bool) -> crate::Result<Express
                                         .ascii_case_insensitive(true)
                                         .kind(Some(AhoCorasickKind::DFA))
                                         .build(vec![needle])
-                                        .expect("failed to build dfa"),
+                                        .map_err(crate::error::parse_invalid_ident)?,
                                 ),
                                 vec![m],
                                 true,
@@ -1536,7 +1536,7 @@ fn parse_mapping_with(mapping: &Mapping, members: bool) -> crate::Result<Express
                                     AhoCorasickBuilder::new()
                                         .kind(Some(AhoCorasickKind::DFA))
                                         .build(needles)
-                                        .expect("failed to build dfa"),
+                                        .map_err(crate::error::parse_invalid_ident)?,
                                 ),
                                 context,
                                 false,
@@ -1555,7 +1555,7 @@ fn parse_mapping_with(mapping: &Mapping, members: bool) -> crate::Result<Express
                                     .ascii_case_insensitive(true)
                                     .kind(Some(AhoCorasickKind::DFA))
                                     .build(ineedles)
-                                    .expect("failed to build dfa"),
+                                    .map_err(crate::error::parse_invalid_ident)?,
                             ),
                             icontext,
                             true,
